@@ -258,6 +258,33 @@ Lemma parse_identstring_B : forall t, B (S (length t)) (parse_identstring t).
 Proof. intros t; unfold parse_identstring; bsolve. Qed.
 #[export] Hint Resolve parse_identstring_B | 1 : bdb.
 
+(* the `_cased` twins (class names and ids keep their letter case) *)
+Lemma nmstart_char_cased_Bs : forall t, B (length t) (nmstart_char_cased t).
+Proof. intros [|c t']; cbn [nmstart_char_cased]; bsolve. Qed.
+Lemma nmchar_char_cased_Bs : forall t, B (length t) (nmchar_char_cased t).
+Proof. intros [|c t']; cbn [nmchar_char_cased]; bsolve. Qed.
+#[export] Hint Resolve nmstart_char_cased_Bs nmchar_char_cased_Bs | 0 : bdb.
+
+Lemma nmstart_cased_Bs : forall t, B (length t) (nmstart_cased t).
+Proof. intros t; unfold nmstart_cased; bsolve. Qed.
+Lemma nmchar_cased_Bs : forall t, B (length t) (nmchar_cased t).
+Proof. intros t; unfold nmchar_cased; bsolve. Qed.
+Lemma nmchar_cased_B : forall t, B (S (length t)) (nmchar_cased t).
+Proof. intros; eapply B_mono; [apply nmchar_cased_Bs|lia]. Qed.
+#[export] Hint Resolve nmstart_cased_Bs nmchar_cased_Bs | 0 : bdb.
+#[export] Hint Resolve nmchar_cased_B | 1 : bdb.
+
+Lemma parse_ident_cased_Bs : forall t, B (length t) (parse_ident_cased t).
+Proof. intros t; unfold parse_ident_cased; cbv zeta; bsolve. Qed.
+Lemma parse_ident_cased_B : forall t, B (S (length t)) (parse_ident_cased t).
+Proof. intros; eapply B_mono; [apply parse_ident_cased_Bs|lia]. Qed.
+#[export] Hint Resolve parse_ident_cased_Bs | 0 : bdb.
+#[export] Hint Resolve parse_ident_cased_B | 1 : bdb.
+
+Lemma parse_identstring_cased_B : forall t, B (S (length t)) (parse_identstring_cased t).
+Proof. intros t; unfold parse_identstring_cased; bsolve. Qed.
+#[export] Hint Resolve parse_identstring_cased_B | 1 : bdb.
+
 (* ------------------------------------------------------------------ *)
 (* Tokens *)
 Lemma digit1_B : forall t acc, B (S (length t)) (digit1 t acc).
@@ -384,13 +411,22 @@ Theorem parse_token_progress : forall t tok rest,
   parse_token t = POk tok rest -> length rest < length t.
 Proof. intros t tok rest H; pose proof (parse_token_Bs t) as HB; rewrite H in HB; exact HB. Qed.
 
-Lemma parse_token_not_semicolon_B : forall t, B (S (length t)) (parse_token_not_semicolon t).
+(* the value loop (replaces many0 parse_token_not_semicolon): with fuel above the input length it
+   never runs out of fuel, never panics (parse_token does not) and returns a suffix of its input *)
+Lemma value_toks_f_B : forall fuel d t acc,
+  length t < fuel -> B (S (length t)) (value_toks_f fuel d t acc).
 Proof.
-  intros t; unfold parse_token_not_semicolon.
-  bcase (parse_token t) (length t); [|exact I].
-  destruct (is_semicolon a || is_close_brace a); bfin.
+  induction fuel as [|f IH]; intros d t acc Hlen; [lia|].
+  cbn [value_toks_f]. pose proof (parse_token_Bs t) as Ht.
+  destruct (parse_token t) as [tok rest| |s|]; cbn [B] in *; try contradiction; [|lia].
+  destruct (is_close_brace tok); [cbn [B]; lia|].
+  destruct (is_semicolon tok && Nat.eqb d 0); [cbn [B]; lia|].
+  destruct (Nat.eqb (length rest) (length t)); [cbn [B]; lia|].
+  eapply B_mono; [apply IH; lia|lia].
 Qed.
-#[export] Hint Resolve parse_token_not_semicolon_B | 1 : bdb.
+Lemma value_toks_B : forall t, B (S (length t)) (value_toks t).
+Proof. intros t; unfold value_toks; apply value_toks_f_B; lia. Qed.
+#[export] Hint Resolve value_toks_B | 1 : bdb.
 
 Lemma parse_value_B : forall t, B (S (length t)) (parse_value t).
 Proof. intros t; unfold parse_value; bsolve. Qed.
